@@ -29,14 +29,16 @@ CLAIMS.update({
             "text": "Layer 1: the bit-vector primitives (fill/clear/set/get/index_of) are verified word-exactly against reference masks. Layer 2: JitAllocatorBlock::mark_allocated_area / "
                     "mark_released_area / mark_shrunk_area / clear_block are verified to preserve the representation invariant wf_block (used/stop consistency, popcount == area_used, Empty <=> only "
                     "padding used, every free granule inside the search window, incremental and clean caches exact) and to change exactly the named run and the pool accounting - an inductive "
-                    "step over arbitrary histories, for every well-formed block state. Bounded in the bit-vector length (64 granules quick / 128 thorough). Layer 3, shrink path: JitAllocatorImpl_shrink "
+                    "step over arbitrary histories, for every well-formed block state. Bounded in the bit-vector length (64 granules quick / 128 thorough). Layer 3: JitAllocator::release (exactly the live span starting at rx is given back, allocation count, pattern fill of exactly that memory, an emptied block is deleted "
+                    "iff the pool already retains one or immediate release is set, NULL/foreign pointers rejected without change) and JitAllocator::query (exactly the live span, both views; "
+                    "free granules and foreign pointers rejected) are verified modularly over mark_released_area with the address tree as an assumed stub. JitAllocatorImpl_shrink "
                     "(used by shrink() and write()) is verified modularly over mark_shrunk_area: sizes that are zero or larger than the span are rejected without change, the span keeps its "
                     "start and >= new_size bytes, exactly the granules behind it are given back, and the pattern fill covers exactly that memory in the writable view of the same block. "
                     "Pool accounting: JitAllocatorImpl_insertBlock / removeBlock (list order, address-tree call, totals, and the cursor never designating a block that left the list) "
                     "modular over the proved ArenaList::unlink/_add_node contracts, pools of <= 3 blocks. "
                     "Free-range search: BitVectorRangeIterator<BitWord,0>::init/next_range - the iterator invariant is established by init and kept by every next_range, and every returned "
                     "range is non-empty, inside the window and consists of free granules only, given that no free granule lies at or beyond the window end (which is wf_block's "
-                    "search-window clause). JitAllocator::alloc/release/query/reset themselves (their glue, block creation, virtual memory) are not under contract: partial.",
+                    "search-window clause). JitAllocator::alloc and reset themselves (the glue between these pieces, block creation, virtual memory) and double release are not under contract: partial.",
             "note": COMMON_NOTE + " Bit-vector functions are inlined into the block units (their bodies are re-verified in context)."},
     "C18": {"category": "model_checking",
             "text": "Arena: _alloc_oneshot (block chain free of dangling links, result aligned/inside the new current block, failure leaves the bump pointer), _alloc_reusable (granted size = slot "
